@@ -838,6 +838,8 @@ def zv(x):
         return z3.IntVal(x)
     if isinstance(x, float):
         from .npx import rationalize
+        if x != x or x in (float("inf"), float("-inf")):
+            raise Undecided("contract not anchored: a contract term refers to the non-finite value %r (exact reals only)" % (x,))
         return z3.RealVal(rationalize(x))
     if isinstance(x, Fraction):
         return z3.RealVal(x)
